@@ -339,6 +339,11 @@ def run_case(case):
         elif k in ('stream', 'checkpoint'):
             if k == 'stream':
                 text = env.streams['obs'].getvalue()
+                if getattr(env.streams['obs'], 'closed_called', False):
+                    # the observer was handed an open file object: closing it takes it away from its owner (with the
+                    # default, sys.stdout itself) - whatever writes there later in the run fails
+                    add('stream_closes_callers_file', 'stream(<file object>) closed the file object it was given',
+                        'stream/closes_callers_file')
             else:
                 fn = os.path.join('cp_' + env.tag, 'obs', 'stream.ndjson')
                 text = open(fn).read() if os.path.exists(fn) else ''
